@@ -25,6 +25,7 @@ class Built:
     sel: List[Any]               # selected EQL expressions, in selection order
     desc: str                    # "entity" | "set_of"
     domains: List[Any] = field(default_factory=list)   # the python containers handed to EQL (per variable)
+    later: List[Any] = field(default_factory=list)     # expressions constructed after the query that mention its terms
 
 
 def make_container(objs, idxs, kind):
@@ -134,7 +135,15 @@ def build_cond(c, V):
         names = ["e", "f"]
         return cls(**{n: build_term(a, V) for n, a in zip(names, c[2])})
     if k == "hastype":
-        return HasType(variable=build_term(c[1], V), types_=CLASSES[c[2]])
+        form = c[3] if len(c) > 3 else "kw"
+        v, t = build_term(c[1], V), CLASSES[c[2]]
+        if form == "pos":
+            return HasType(v, t)
+        if form == "pos_kw":
+            return HasType(v, types_=t)
+        if form == "kw_rev":
+            return HasType(types_=t, variable=v)
+        return HasType(variable=v, types_=t)
     if k == "and":
         return _chain(and_, lambda a, b: a & b, c[1], [build_cond(x, V) for x in c[2]])
     if k == "or":
@@ -191,6 +200,21 @@ def declare_vars(case, objs, containers=None):
         V = Vars(V)
         V.memo = {}
     return V, conts
+
+
+def later_uses(V):
+    """Expressions CONSTRUCTED AFTER the query, never evaluated, that mention the query's mapping-term objects again as
+    operands of a comparison (f = x.a; q = an(entity(x, ... f ...)); q2 = an(entity(x, f != 77)))."""
+    memo = getattr(V, "memo", None)
+    if not memo:
+        return []
+    out = []
+    with symbolic_mode():
+        for key, obj in list(memo.items()):
+            if key.startswith("truth:") or obj is True:
+                continue
+            out.append(an(entity(V[0], obj != 77)))
+    return out
 
 
 def build_over(V, spec, negate: int = 0, quant: Optional[str] = None, negate_desc: int = 0,
@@ -273,7 +297,10 @@ def build_query(case, objs, containers=None, negate: int = 0, quant: Optional[st
         pre = build_over(V, dict(case, cond=case["prelude"], split_top=False, quant="an"), conts=conts)
         for _ in pre.q.evaluate():
             pass
-    return build_over(V, case, negate, quant, negate_desc, neg_form, conts)
+    main = build_over(V, case, negate, quant, negate_desc, neg_form, conts)
+    if case.get("later_uses"):
+        main.later = later_uses(V)       # kept alive with the query
+    return main
 
 
 def rows_of(built: Built, results) -> List[tuple]:
